@@ -36,7 +36,10 @@ Closed(S) == \A a \in S : a.parent = 0 \/ \E b \in S : b.id = a.parent
 Flags == [has : BOOLEAN, fails : {"no", "plain", "fiber503"}]
 
 Init == /\ apps \in {S \in SUBSET AppPool : S # {} /\ Cardinality(S) <= MaxApps /\ Closed(S)
-                                            /\ \A a, b \in S : a # b => a.full # b.full}
+                                            /\ (\A a, b \in S : a # b => a.full # b.full)
+                                            \* apps whose prefix is only SPELLED specially (capitals, trailing slash at the mount
+                                            \* call) are combined with at most one other app: the confusable structure is in the rest
+                                            /\ ((\E z \in S : z.id >= 8) => Cardinality(S) <= 2)}
         /\ cfg = [i \in {0} |-> [has |-> FALSE, fails |-> "no"]]
         /\ path = <<>> /\ kind = "" /\ phase = "config" /\ delivered = <<>> /\ status = 0
 
